@@ -1,2 +1,523 @@
-// Package c02: (not built yet)
+// Package c02: persisting a session between waits is transparent.
 package c02
+
+import (
+	"encoding/json"
+	"fmt"
+	"strings"
+	"time"
+
+	"github.com/nyaruka/goflow/assets"
+	"github.com/nyaruka/goflow/flows"
+	"verif/checks/sm"
+	"verif/mc"
+	"verif/world"
+)
+
+func init() {
+	world.ActionSets["ticket"] = func(f, i int) []any {
+		return []any{world.J{"uuid": world.ActUUID(f, i, 0), "type": "open_ticket", "topic": world.J{"uuid": world.TopicB, "name": "Support"}, "body": "help @input.text", "result_name": "Ticket"}}
+	}
+	world.ActionSets["webhook"] = func(f, i int) []any {
+		return []any{world.J{"uuid": world.ActUUID(f, i, 0), "type": "call_webhook", "method": "GET", "url": "http://example.com/x", "result_name": "wh"}}
+	}
+	world.ActionSets["usewh"] = func(f, i int) []any {
+		return []any{
+			world.J{"uuid": world.ActUUID(f, i, 0), "type": "set_run_result", "name": "masked_wh", "value": "@webhook"},
+			world.J{"uuid": world.ActUUID(f, i, 1), "type": "set_run_result", "name": "masked_le", "value": "@legacy_extra"},
+		}
+	}
+	world.ActionSets["ctx"] = func(f, i int) []any {
+		return []any{world.J{"uuid": world.ActUUID(f, i, 0), "type": "send_msg",
+			"text": "p=@parent.results.role.value c=@child.results.answer.value i=@input.text r=@resume.type t=@trigger.type s=@run.status a=@results.answer.value n=@contact.name v=@node.visit_count k=@(count(run.path)) wh=@results.wh.value tk=@results.ticket.category"},
+			world.J{"uuid": world.ActUUID(f, i, 1), "type": "set_run_result", "name": "ctxdump",
+				"value": "@(json(parent)) @(json(child)) @(json(run)) @(json(contact)) @(json(input)) @(json(trigger)) @(json(resume)) @(json(node)) @(json(fields)) @(json(urns)) @(json(ticket))"}}
+	}
+	world.ActionSets["now"] = func(f, i int) []any {
+		return []any{
+			world.J{"uuid": world.ActUUID(f, i, 0), "type": "set_run_result", "name": "When", "value": "@(now())"},
+			world.J{"uuid": world.ActUUID(f, i, 1), "type": "set_contact_field", "field": world.J{"key": "joined", "name": "Joined"}, "value": "@(now())"},
+		}
+	}
+}
+
+var kinds = []string{"A:ticket", "A:webhook", "A:usewh", "A:ctx", "A:now", "Eo", "Es", "W", "WT"}
+var triggers = []string{"manual", "manual_batch", "msg", "flow_action", "flow_action_batch"}
+
+type replay struct {
+	Root   world.Root `json:"root"`
+	Events []string   `json:"events"`
+	// Pattern bit i set = the host restarts (marshal + read) before applying Events[i]
+	Pattern int `json:"pattern"`
+}
+
+func hasWait(fs world.FlowSet) bool {
+	for _, f := range fs.Flows {
+		for _, n := range f.Nodes {
+			if n.Kind == "W" || n.Kind == "WT" {
+				return true
+			}
+		}
+	}
+	return false
+}
+
+func roots(tier string) []world.Root {
+	n1 := 1
+	var sets []world.FlowSet
+	for _, fs := range world.EnumFlowSets(kinds, 2, n1) {
+		if hasWait(fs) {
+			sets = append(sets, fs)
+		}
+	}
+	var out []world.Root
+	for i := range sets {
+		for _, tr := range triggers {
+			out = append(out, world.Root{Flows: &sets[i], Trigger: tr, Opt: world.Options{MaxSteps: 8}})
+		}
+		// sub-flows: also with a 1 ns clock step, so that several runs are modified within the same
+		// microsecond/millisecond (ties after any loss of timestamp precision)
+		multi := false
+		for _, n := range sets[i].Flows[0].Nodes {
+			if n.Kind == "Eo" || n.Kind == "Es" {
+				multi = true
+			}
+		}
+		if multi {
+			out = append(out, world.Root{Flows: &sets[i], Trigger: "manual", Opt: world.Options{MaxSteps: 8}, Step: 1})
+		}
+	}
+	return out
+}
+
+// observation of one execution of (events, pattern)
+type obs struct {
+	contexts []string // per call: forced expression context (without @webhook, @legacy_extra)
+	sprints  []string // per call: error | events+segments JSON (masked)
+	final    string   // masked session JSON
+	waiting  bool
+	fixFail  string // marshal/read/marshal fixpoint failure
+	err      string
+	hist     []world.Step
+}
+
+func maskWalk(v any) any {
+	switch t := v.(type) {
+	case map[string]any:
+		if n, ok := t["name"].(string); ok && strings.HasPrefix(n, "masked_") {
+			for _, k := range []string{"value", "input", "extra"} {
+				if _, has := t[k]; has {
+					t[k] = "MASKED"
+				}
+			}
+		}
+		for k, x := range t {
+			t[k] = maskWalk(x)
+		}
+		return t
+	case []any:
+		for i, x := range t {
+			t[i] = maskWalk(x)
+		}
+		return t
+	}
+	return v
+}
+
+func mask(b []byte) string {
+	if !strings.Contains(string(b), "masked_") {
+		return string(b)
+	}
+	var v any
+	if err := json.Unmarshal(b, &v); err != nil {
+		return string(b)
+	}
+	out, _ := json.Marshal(maskWalk(v))
+	return string(out)
+}
+
+func sprintJSON(sp flows.Sprint, err error) string {
+	if err != nil {
+		return "ERR:" + err.Error()
+	}
+	if sp == nil {
+		return "nil"
+	}
+	eb, _ := json.Marshal(sp.Events())
+	type seg struct {
+		Flow, Node, Exit, Operand, Dest string
+		Time                            time.Time
+	}
+	var segs []seg
+	for _, s := range sp.Segments() {
+		segs = append(segs, seg{string(s.Flow().UUID()), string(s.Node().UUID()), string(s.Exit().UUID()), s.Operand(), string(s.Destination().UUID()), s.Time()})
+	}
+	sb, _ := json.Marshal(segs)
+	return mask(eb) + "|" + string(sb)
+}
+
+// fixpoint checks marshal(read(marshal(s))) == marshal(s).
+func fixpoint(x *world.Exec) string {
+	m1, err := json.Marshal(x.Session)
+	if err != nil {
+		return "marshal error: " + err.Error()
+	}
+	s2, err := x.Eng.ReadSession(x.SA, m1, assets.IgnoreMissing)
+	if err != nil {
+		return "read error: " + err.Error()
+	}
+	m2, err := json.Marshal(s2)
+	if err != nil {
+		return "re-marshal error: " + err.Error()
+	}
+	if string(m1) != string(m2) {
+		return "differs in " + diffMember(m1, m2)
+	}
+	return ""
+}
+
+func execute(root *world.Root, events []string, pattern int, checkFix bool) *obs {
+	o := &obs{}
+	hist := []world.Step{{}}
+	for i, ev := range events {
+		hist = append(hist, world.Step{Ev: ev, Restart: pattern&(1<<i) != 0})
+	}
+	o.hist = hist
+	p := mc.Guard(func() {
+		x, err := root.Start(hist[0])
+		if err != nil {
+			o.err = "harness: " + err.Error()
+			return
+		}
+		o.sprints = append(o.sprints, sprintJSON(x.Sprint, x.Err))
+		for _, st := range hist[1:] {
+			if x.Err != nil {
+				break
+			}
+			if checkFix && o.fixFail == "" {
+				o.fixFail = fixpoint(x)
+			}
+			if err := x.Apply(st); err != nil {
+				o.err = "harness: " + err.Error()
+				return
+			}
+			o.sprints = append(o.sprints, sprintJSON(x.Sprint, x.Err))
+		}
+		// The expression context is observed where expressions can observe it: inside sprints, through
+		// the A:ctx action that dumps every context member as JSON. The context of an idle session
+		// (Session.CurrentContext() between sprints) is deliberately not compared: @resume of a live
+		// session still shows the previous resume while a restored one shows none, which no template
+		// can see, so demanding equality there would be more than the property states.
+		if x.Err == nil {
+			if checkFix && o.fixFail == "" {
+				o.fixFail = fixpoint(x)
+			}
+			b, _ := json.Marshal(x.Session)
+			o.final = mask(b)
+			o.waiting = x.Session.Status() == flows.SessionStatusWaiting
+		}
+	})
+	if p != "" {
+		o.err = "panic: " + p
+	}
+	return o
+}
+
+// the two context members the statement allows to differ, plus results masked by construction
+var ctxSkip = map[string]bool{".webhook": true, ".legacy_extra": true, ".results.masked_wh": true, ".results.masked_le": true,
+	".run.results.masked_wh": true, ".run.results.masked_le": true, ".child.results.masked_wh": true, ".child.results.masked_le": true,
+	".parent.results.masked_wh": true, ".parent.results.masked_le": true}
+
+func contextOf(x *world.Exec) string {
+	if x.Err != nil || x.Session == nil {
+		return ""
+	}
+	ctx := x.Session.CurrentContext()
+	if ctx == nil {
+		return "<nil>"
+	}
+	return sm.DumpContext(x.Session.MergedEnvironment(), ctx, ctxSkip, 6)
+}
+
+func firstLineDiff(a, b string) (string, string) {
+	la, lb := strings.Split(a, "\n"), strings.Split(b, "\n")
+	for i := 0; i < len(la) || i < len(lb); i++ {
+		x, y := "", ""
+		if i < len(la) {
+			x = la[i]
+		}
+		if i < len(lb) {
+			y = lb[i]
+		}
+		if x != y {
+			return x, y
+		}
+	}
+	return "", ""
+}
+
+func diffMember(a, b []byte) string {
+	var ma, mb map[string]json.RawMessage
+	json.Unmarshal(a, &ma)
+	json.Unmarshal(b, &mb)
+	for _, k := range []string{"status", "runs", "contact", "input", "environment", "trigger", "wait", "uuid", "type"} {
+		if string(ma[k]) != string(mb[k]) {
+			if k == "runs" {
+				var ra, rb []map[string]json.RawMessage
+				json.Unmarshal(ma[k], &ra)
+				json.Unmarshal(mb[k], &rb)
+				if len(ra) != len(rb) {
+					return "runs:count"
+				}
+				for i := range ra {
+					for _, rk := range []string{"status", "path", "events", "results", "parent_uuid", "flow", "created_on", "modified_on", "exited_on", "uuid"} {
+						if string(ra[i][rk]) != string(rb[i][rk]) {
+							return "runs." + rk
+						}
+					}
+				}
+			}
+			return k
+		}
+	}
+	return "other"
+}
+
+// eventTypes lists the event types of a sprint observation (for signature keys).
+func eventTypes(s string) []string {
+	if strings.HasPrefix(s, "ERR:") {
+		return []string{"go-error"}
+	}
+	i := strings.LastIndex(s, "|")
+	if i < 0 {
+		return nil
+	}
+	var evs []map[string]any
+	json.Unmarshal([]byte(s[:i]), &evs)
+	var out []string
+	for _, e := range evs {
+		t, _ := e["type"].(string)
+		if t == "error" || t == "failure" {
+			txt, _ := e["text"].(string)
+			t += "(" + slug(txt, 5) + ")"
+		}
+		out = append(out, t)
+	}
+	return out
+}
+
+func slug(s string, n int) string {
+	f := strings.Fields(s)
+	if len(f) > n {
+		f = f[:n]
+	}
+	out := strings.ToLower(strings.Join(f, "-"))
+	return strings.Map(func(r rune) rune {
+		if (r >= 'a' && r <= 'z') || (r >= '0' && r <= '9') || r == '-' {
+			return r
+		}
+		return -1
+	}, out)
+}
+
+// firstEventDiff describes the first differing event between two sprint observations.
+func firstEventDiff(a, b string) string {
+	ta, tb := eventTypes(a), eventTypes(b)
+	for i := 0; i < len(ta) || i < len(tb); i++ {
+		x, y := "-", "-"
+		if i < len(ta) {
+			x = ta[i]
+		}
+		if i < len(tb) {
+			y = tb[i]
+		}
+		if x != y {
+			return "live=" + x + ":restored=" + y
+		}
+	}
+	// same types: find which event's payload differs
+	ia, ib := strings.LastIndex(a, "|"), strings.LastIndex(b, "|")
+	if ia > 0 && ib > 0 {
+		var ea, eb []map[string]json.RawMessage
+		json.Unmarshal([]byte(a[:ia]), &ea)
+		json.Unmarshal([]byte(b[:ib]), &eb)
+		for i := range ea {
+			if i < len(eb) {
+				for k, v := range ea[i] {
+					if string(eb[i][k]) != string(v) {
+						var t string
+						json.Unmarshal(ea[i]["type"], &t)
+						return "same-types:payload-of-" + t + "." + k
+					}
+				}
+			}
+		}
+		if a[ia:] != b[ib:] {
+			return "same-events:segments"
+		}
+	}
+	return "same-types:payload"
+}
+
+func compare(c *mc.Ctx, root *world.Root, events []string, pattern int, live, o *obs) {
+	rp := replay{Root: *root, Events: events, Pattern: pattern}
+	ctx := fmt.Sprintf("\nflows: %s\ntrigger=%s events=%v restart-pattern=%b", root.Flows.String(), root.Trigger, events, pattern)
+	if o.err != "" || live.err != "" {
+		if o.err != live.err {
+			c.Violation("restart-diverges:failure:"+slug(o.err+live.err, 4), "live: "+live.err+"\nrestored: "+o.err+ctx, rp)
+		}
+		return
+	}
+	c.Inc("differential_comparisons")
+	for i := range live.sprints {
+		if i >= len(o.sprints) || live.sprints[i] != o.sprints[i] {
+			other := "(missing)"
+			if i < len(o.sprints) {
+				other = o.sprints[i]
+			}
+			c.Violation("restart-diverges:sprint:"+firstEventDiff(live.sprints[i], other),
+				fmt.Sprintf("sprint %d differs between the live and the restarted execution\nlive:     %s\nrestored: %s%s", i, trim(live.sprints[i], 900), trim(other, 900), ctx), rp)
+			return
+		}
+	}
+	for i := range live.contexts {
+		if i < len(o.contexts) && live.contexts[i] != o.contexts[i] {
+			la, lb := firstLineDiff(live.contexts[i], o.contexts[i])
+			path := la
+			if path == "" {
+				path = lb
+			}
+			if j := strings.Index(path, "="); j > 0 {
+				path = path[:j]
+			}
+			if len(path) > 60 {
+				path = path[:60]
+			}
+			c.Violation("restart-diverges:context:"+path,
+				fmt.Sprintf("expression context after call %d differs between the live and the restarted execution\nlive:     %s\nrestored: %s%s", i, trim(la, 400), trim(lb, 400), ctx), rp)
+			return
+		}
+	}
+	if live.final != o.final {
+		c.Violation("restart-diverges:final-session-json:"+diffMember([]byte(live.final), []byte(o.final)),
+			fmt.Sprintf("resulting session JSON differs (%s)\nlive:     %s\nrestored: %s%s", diffMember([]byte(live.final), []byte(o.final)), trim(live.final, 900), trim(o.final, 900), ctx), rp)
+	}
+}
+
+func trim(s string, n int) string {
+	if len(s) > n {
+		return s[:n] + "…"
+	}
+	return s
+}
+
+func run(c *mc.Ctx) {
+	rs := roots(c.Tier)
+	depth := 2
+	if c.Thorough() {
+		depth = 4
+	}
+	for i := range rs {
+		if !c.Mine(i) {
+			continue
+		}
+		if c.Expired() {
+			c.Cap("time budget reached; every root before the cap was explored completely")
+			break
+		}
+		root := &rs[i]
+		c.Inc("roots")
+		nontrivial := false
+		var explore func(events []string)
+		explore = func(events []string) {
+			k := len(events)
+			live := execute(root, events, 0, true)
+			c.Inc("states")
+			c.Inc("transitions")
+			c.Inc("evaluations")
+			if live.fixFail != "" {
+				c.Violation("marshal-read-marshal-not-fixpoint:"+slug(live.fixFail, 4), "marshal(read(marshal(s))) != marshal(s): "+live.fixFail+fmt.Sprintf("\nflows: %s trigger=%s events=%v", root.Flows.String(), root.Trigger, events), replay{Root: *root, Events: events})
+			}
+			c.Inc("fixpoint_checks")
+			for p := 1; p < 1<<k; p++ {
+				o := execute(root, events, p, false)
+				c.Inc("states")
+				c.Inc("transitions")
+				c.Inc("evaluations")
+				compare(c, root, events, p, live, o)
+				nontrivial = true
+			}
+			if k > 0 {
+				c.Outcome(fmt.Sprintf("depth=%d waiting=%v", k, live.waiting))
+				if c.WantSample() && k == 2 {
+					c.Sample(map[string]any{"flows": root.Flows.String(), "trigger": root.Trigger, "events": events, "patterns_compared": 1 << k, "last_sprint": trim(live.sprints[len(live.sprints)-1], 400)})
+				}
+			}
+			for _, s := range live.sprints {
+				for _, t := range eventTypes(s) {
+					switch {
+					case t == "ticket_opened":
+						c.Fact("ticket_opened")
+					case t == "webhook_called":
+						c.Fact("webhook_called")
+					case strings.HasPrefix(t, "error(cant-open-tickets"):
+						c.Fact("batch_ticket_refused")
+					case t == "flow_entered":
+						c.Fact("flow_entered")
+					}
+				}
+			}
+			if live.err == "" && live.waiting && k < depth {
+				for _, ev := range world.Events {
+					explore(append(append([]string{}, events...), ev))
+				}
+			}
+		}
+		explore(nil)
+		if nontrivial {
+			c.Inc("distinct_nontrivial")
+		}
+	}
+}
+
+func replayFn(c *mc.Ctx, raw json.RawMessage) (string, bool) {
+	var rp replay
+	if err := json.Unmarshal(raw, &rp); err != nil {
+		return "bad replay: " + err.Error(), false
+	}
+	live := execute(&rp.Root, rp.Events, 0, true)
+	o := execute(&rp.Root, rp.Events, rp.Pattern, false)
+	before := c.NumViolationKeys()
+	if live.fixFail != "" {
+		return "fixpoint failure: " + live.fixFail, true
+	}
+	compare(c, &rp.Root, rp.Events, rp.Pattern, live, o)
+	out := fmt.Sprintf("flows: %s\ntrigger=%s events=%v pattern=%b\nlive sprints: %v\nrestored sprints: %v\n", rp.Root.Flows.String(), rp.Root.Trigger, rp.Events, rp.Pattern, live.sprints, o.sprints)
+	return out, c.NumViolationKeys() > before
+}
+
+func init() {
+	mc.Register(&mc.Check{
+		ID:    "C02",
+		Level: "model_checking",
+		Rule: "crash-point enumeration on the real engine: roots = canonical flow sets (<= 2(+1) nodes, containing a wait) over an action alphabet that reads non-persisted state (open_ticket/batch, call_webhook, @webhook/@legacy_extra in masked results only, now(), parent/child/input/resume context, sub-flows) x 5 trigger kinds (incl. batch and flow_action); " +
+			"every resume history up to depth 3/4 over {msg a, msg zz, wait_timeout, run_expiration} x EVERY subset of its waits at which the host restarts (marshal + ReadSession): 2^k patterns, each compared byte-for-byte (events, segments, session JSON) with the never-restart execution; marshal/read/marshal fixpoint at every wait. " +
+			"states = (history, restart-pattern) executions; distinct_nontrivial = roots with at least one resume.",
+		Assumptions: []string{"@webhook and @legacy_extra appear only in results named masked_*, whose values are masked and never routed on", "restarting does not consume clock ticks or UUIDs (otherwise byte comparison would be too strict; none observed)"},
+		Run:         run,
+		Replay:      replayFn,
+		Budget:      map[string]time.Duration{"quick": 4 * time.Minute, "thorough": 25 * time.Minute},
+		Guards: func(r *mc.Result, tier string) []string {
+			var f []string
+			for _, fact := range []string{"ticket_opened", "webhook_called", "batch_ticket_refused", "flow_entered"} {
+				if r.Facts[fact] == 0 {
+					f = append(f, "never observed: "+fact)
+				}
+			}
+			if r.Counters["differential_comparisons"] == 0 {
+				f = append(f, "no differential comparisons")
+			}
+			return f
+		},
+	})
+}
